@@ -126,6 +126,10 @@ def error_cases():
         for kind, tok, nm in bads:
             for ctx in ("top", "repeat"):
                 yield {"err": kind, "cell": cell, "tok": tok, "name": nm, "ctx": ctx}
+                if kind == "dup":
+                    # the ambiguous name occurs 3, 4 and 5 times (in as many groups), not only twice
+                    for copies in (3, 4, 5):
+                        yield {"err": kind, "cell": cell, "tok": tok, "name": nm, "ctx": ctx, "copies": copies}
 
 
 def required_outcomes(tier):
@@ -227,6 +231,8 @@ def build_error(case):
     rows = [{"type": "text", "name": "a", "label": "A"},
             {"type": "begin group", "name": "g1", "label": "G1"}, {"type": "text", "name": "d", "label": "D"}, {"type": "end group"},
             {"type": "begin group", "name": "g2", "label": "G2"}, {"type": "text", "name": "d", "label": "D"}, {"type": "end group"}]
+    for k in range(3, case.get("copies", 2) + 1):
+        rows += [{"type": "begin group", "name": f"g{k}", "label": f"G{k}"}, {"type": "text", "name": "d", "label": "D"}, {"type": "end group"}]
     body = [q]
     if cell == "repeat_count":
         body = [{"type": "begin repeat", "name": "rr", "label": "RR", "repeat_count": tok}, q, {"type": "end repeat"}]
